@@ -106,13 +106,20 @@ def run_reader_cid(text, widths, delimiter, encoding=None):
     import cutplace
 
     m = harness.modules()
-    key = (tuple(widths), delimiter, encoding)
+    key = (tuple(widths), delimiter, None if encoding == "@offset" else encoding)
     if key not in _CIDS:
-        rows = [["D", "Format", "Fixed"], ["D", "Encoding", encoding or "utf-8"], ["D", "Line delimiter", delimiter_name(delimiter)]]
+        rows = [["D", "Format", "Fixed"], ["D", "Encoding", key[2] or "utf-8"], ["D", "Line delimiter", delimiter_name(delimiter)]]
         rows += [["F", "f%d" % i, "", "X", str(w)] for i, w in enumerate(widths)]
         _CIDS[key] = harness.make_cid(rows)
     rows = []
     source = harness.NamedStringIO(text)
+    if encoding == "@offset":
+        # a stream the caller has partly consumed (a title line read before the data): the data start where the stream stands
+        encoding = None
+        key = (tuple(widths), delimiter, None)
+        preamble = "v02\n" if len(text) % 2 else "title line\r\n"
+        source = harness.NamedStringIO(preamble + text)
+        source.read(len(preamble))
     if encoding:
         # stored in the declared encoding (characters are not bytes) and opened by the reader itself
         source = os.path.join(readermachine.tmpdir(), "fixed_%s.txt" % encoding)
@@ -141,7 +148,7 @@ def judge_complete(text, widths, delimiter, part, case=None, via_path=False):
         kind, rows, detail = run_reader_path(text, widths, delimiter) if via_path else run_reader(text, widths, delimiter, True)
     part.transitions += 1
     part.validated += 1
-    tag = "%s|%s%%s" % (delimiter_name(delimiter), ("declared-in-a-cid:" if via_path == "cid" else "declared-in-a-cid-file-in-%s:" % via_path[4:]) if isinstance(via_path, str) and via_path.startswith("cid") else ("file-opened-by-the-reader:" if via_path else ""))
+    tag = "%s|%s%%s" % (delimiter_name(delimiter), ("declared-in-a-cid:" if via_path == "cid" else ("stream-handed-over-behind-a-title-line:" if via_path == "cid:@offset" else "declared-in-a-cid-file-in-%s:" % via_path[4:])) if isinstance(via_path, str) and via_path.startswith("cid") else ("file-opened-by-the-reader:" if via_path else ""))
     case = case or {"text": text, "widths": list(widths), "delimiter": delimiter, "via_path": via_path}
     total = sum(widths)
     if kind == "ok":
@@ -287,6 +294,7 @@ def run(ctx):
     # the same from files in encodings whose characters take several bytes
     cid_items += [(widths, delimiter, 4 if quick else 6, alphabet, "cid:" + encoding) for widths in ([1], [3], [1, 2]) for delimiter in DELIMITERS
                   for encoding, alphabet in (("utf-16", "ab\r\n"), ("utf-8", "a\xe4\r\n"), ("utf-32", "a\r\n"))]
+    cid_items += [(widths, delimiter, 5 if quick else 7, "ab\r\n", "cid:@offset") for widths in ([1], [2, 1], [3]) for delimiter in DELIMITERS]
     ctx.pmap(MOD, "enumerate_strings", cid_items, label="C13 enumeration through CIDs")
     fix_lists = [[1], [2], [1, 1], [2, 1], [1, 2], [3], [1, 1, 1], [2, 2], [3, 1], [1, 3], [1, 2, 1], [2, 1, 2], [3, 3]] if quick else width_lists("thorough")
     fix_items = []
